@@ -132,7 +132,9 @@ def _rules(ck, prog, cfg):
         ck.check("physical_node" in v.fields, "R19.3", "get_replicas_with_rf:push-from-ring" + _tag(cfg),
                  "a replica is pushed that does not come from a ring entry (%s)" % v.path(), g.where(pt["ln"]), detail="push(vnode.physical_node)")
         # distinctness: guarded by !seen.contains(..)
-        guarded = any(gd["src"] is not None and gd["src"].kind == "call" and is_callee(gd["src"].term, r"HashSet::<.*>::contains$") and lib2.guard_is_false(gd)
+        guarded = any(gd["src"] is not None and gd["src"].kind == "call" and
+                      ((is_callee(gd["src"].term, r"HashSet::<.*>::contains$") and lib2.guard_is_false(gd)) or
+                       (is_callee(gd["src"].term, r"HashSet::<.*>::insert$") and lib2.guard_is_true(gd)))     # `if seen.insert(n)`: true = newly seen
                       for gd in lib2.guards(g, pb))
         ck.check(guarded, "R19.4", "get_replicas_with_rf:distinct" + _tag(cfg), "a replica can be pushed twice (no seen-set guard)", g.where(pt["ln"]),
                  detail="!seen.contains(node)")
